@@ -3,8 +3,61 @@ From Coq Require Import List ZArith NArith QArith Bool.
 Require Import QV.C18.Model QV.C18.Spec QV.C18.Proofs.
 Import ListNotations.
 
+(* Generator side of the routing invariant, for arbitrary finite histories of operations (calls that raise included)
+   that respect guard_C18_rewire (no re-wiring of a channel / measurement name while a registered program uses it):
+   every generator holds exactly the registered programs that use one of its channels, each with the program object
+   of the last registration and every channel id / transformation at the wired output position (Spec.awg_exact);
+   the participation record of every registered program names exactly the generators the wiring gives; a generator
+   is only ever armed with a program it holds. *)
+Theorem C18_routing_invariant_awg : forall dm h,
+  guard_C18_rewire dm init_state h = true -> routing_inv_awg dm (run dm init_state h).
+Proof. exact Proofs_inv.inv_awg_histories. Qed.
+Print Assumptions C18_routing_invariant_awg.
+
+(* Without the guard the invariant is false for the unchanged code (known finding C18-rewire-stale): three calls
+   that all return normally leave a program on a generator none of whose outputs the program's channel is wired to. *)
+Theorem C18_routing_invariant_refuted :
+  exists dm h, ~ routing_inv_awg dm (run dm init_state h).
+Proof. exists rewire_dims, rewire_history. exact rewire_refutes. Qed.
+Print Assumptions C18_routing_invariant_refuted.
+
+(* the guard is satisfiable by a history that registers on two generators, updates onto one, arms, runs and removes *)
+Theorem C18_guard_example :
+  guard_C18_rewire rewire_dims init_state guard_example_history = true
+  /\ keys (regs (run rewire_dims init_state guard_example_history)) = [1%N]
+  /\ keys (a_progs (awg_of (run rewire_dims init_state guard_example_history) 1%N)) = [1%N].
+Proof. exact guard_example. Qed.
+Print Assumptions C18_guard_example.
+
+(* arm_program that returns normally arms every participating generator with the program and disarms every other
+   wired generator *)
+Theorem C18_arm_awg : forall dm h name st',
+  guard_C18_rewire dm init_state h = true ->
+  arm_program (run dm init_state h) name = (st', None) ->
+  exists r, lookup name (regs st') = Some r
+            /\ forall a, awg_arm_post (chmap st') name (r_chans r) a (awg_of st' a) = true.
+Proof. exact arm_post_awg. Qed.
+Print Assumptions C18_arm_awg.
+
+(* a removed program is gone from every generator; after clear_programs every generator is empty *)
+Theorem C18_removed_awg : forall dm h name a,
+  guard_C18_rewire dm init_state h = true ->
+  awg_gone name (awg_of (fst (remove_program (run dm init_state h) name)) a) = true.
+Proof. exact removed_gone_awg. Qed.
+Print Assumptions C18_removed_awg.
+
+Theorem C18_cleared_awg : forall dm h a,
+  guard_C18_rewire dm init_state h = true ->
+  a_progs (awg_of (fst (clear_programs (run dm init_state h))) a) = [].
+Proof. exact cleared_empty_awg. Qed.
+Print Assumptions C18_cleared_awg.
+
 (* a call that raises anything but ProgramOverwriteException leaves every object as it was *)
 Theorem C18_failed_call_no_effect : forall dm st o st' e,
   step dm st o = (st', Some e) -> e <> EOverwrite -> st' = st.
 Proof. exact failed_step_no_effect. Qed.
 Print Assumptions C18_failed_call_no_effect.
+
+(* Acquisition-device side: stated, NOT proved (only checked on the implementation by check_spec / py_spec). *)
+Definition C18_routing_invariant_dac_statement : Prop := forall dm h,
+  guard_C18_rewire dm init_state h = true -> routing_inv_dac (run dm init_state h).
